@@ -610,7 +610,15 @@ void
 powerpc_load_long_constant (OrcCompiler *p, int reg, orc_uint32 value0,
     orc_uint32 value1, orc_uint32 value2, orc_uint32 value3)
 {
-  int i = p->n_constants++;
+  int i = p->n_constants;
+
+  if (i >= ORC_N_CONSTANTS) {
+    /* reuse the last slot: the compile is abandoned anyway */
+    orc_compiler_error (p, "too many constants");
+    i = ORC_N_CONSTANTS - 1;
+  } else {
+    p->n_constants++;
+  }
   p->constants[i].type = ORC_CONST_FULL;
   p->constants[i].full_value[0] = value0;
   p->constants[i].full_value[1] = value1;
@@ -637,7 +645,13 @@ powerpc_get_constant (OrcCompiler *p, int type, int value)
     }
   }
   if (i == p->n_constants) {
-    p->n_constants++;
+    if (p->n_constants >= ORC_N_CONSTANTS) {
+      /* reuse the last slot: the compile is abandoned anyway */
+      orc_compiler_error (p, "too many constants");
+      i = ORC_N_CONSTANTS - 1;
+    } else {
+      p->n_constants++;
+    }
     p->constants[i].type = type;
     p->constants[i].value = value;
     p->constants[i].alloc_reg = 0;
@@ -668,7 +682,13 @@ powerpc_get_constant_full (OrcCompiler *p, int value0, int value1,
     }
   }
   if (i == p->n_constants) {
-    p->n_constants++;
+    if (p->n_constants >= ORC_N_CONSTANTS) {
+      /* reuse the last slot: the compile is abandoned anyway */
+      orc_compiler_error (p, "too many constants");
+      i = ORC_N_CONSTANTS - 1;
+    } else {
+      p->n_constants++;
+    }
     p->constants[i].type = ORC_CONST_FULL;
     p->constants[i].full_value[0] = value0;
     p->constants[i].full_value[1] = value1;
